@@ -124,6 +124,8 @@ def rfc(t):
 
 def epoch_of_rfc(s):
     """Independent reading of a canonical RFC-1123 string; None if it is not one."""
+    if isinstance(s, str) and len(s) == 28 and s[3:5] == ", " and s[5:6].isdigit() and s[6:7] == " ":
+        s = s[:5] + "0" + s[5:]      # RFC 822 / 1123: date = 1*2DIGIT month 2*4DIGIT — an un-padded day of month is legal
     if not isinstance(s, str) or len(s) != 29 or not s.endswith(" GMT"):
         return None
     try:
@@ -523,6 +525,24 @@ DEFAULTS = {"cond": None, "project": None, "sort": None, "timeseries": False, "c
             "min_energy": None}
 
 
+def _unpad_days(rng, case):
+    """RFC 1123 writes the day of month as 1*2DIGIT: on ~8 % of the request cases the top-level stamps whose day is 01..09 are
+    (each with probability 1/2) written WITHOUT the leading zero, as a server or proxy that does not pad would send them.  The
+    Lean parser is the canonical 29-character form, so these cases are judged by the oracle alone (`unpadded`)."""
+    if case.get("kind") in ("sessions", "by_time") and rng.random() < 0.08:
+        hit = False
+        for pg in case.get("pages", []):
+            for d in pg.get("items", []) if pg.get("kind") == "page" else []:
+                for f in d:
+                    v = f[1]
+                    if isinstance(v, str) and len(v) == 29 and v[5] == "0" and epoch_of_rfc(v) is not None and rng.random() < 0.5:
+                        f[1] = v[:5] + v[6:]
+                        hit = True
+        if hit:
+            case["unpadded"] = True
+    return case
+
+
 def _with_omissions(rng, case):
     """on ~40 % of the request cases the optional arguments whose value IS the documented default (None / False) are left out
     of the call (each with probability 1/2): the expectation and the model are unchanged, the call relies on the defaults"""
@@ -535,7 +555,7 @@ def _with_omissions(rng, case):
 
 
 def generate(rng, n, tier):
-    return _calendar_cases(rng, tier) + [_with_omissions(rng, _gen_case(rng)) for _ in range(n)]
+    return _calendar_cases(rng, tier) + [_unpad_days(rng, _with_omissions(rng, _gen_case(rng))) for _ in range(n)]
 
 
 # ------------------------------------------------------------------ the fake server (shared description)
@@ -861,6 +881,8 @@ def _doc_zones(case):
 
 
 def model_request(case):
+    if case.get("unpadded"):
+        return None          # oracle only: the model's parser is the canonical 29-character form
     if case["kind"] == "calendar":
         return {"op": "calendar", "from": case["from"], "n": case["n"]}
     if case["kind"] == "dates":
@@ -1151,7 +1173,7 @@ def oracle(case, obs):
             ov = of.get(key)
             if isinstance(v, str):
                 t = epoch_of_rfc(v)
-                if t is not None and rfc(t) == v:
+                if t is not None and (rfc(t) == v or (rfc(t)[5] == "0" and rfc(t)[:5] + rfc(t)[6:] == v)):
                     if ov is None or "d" not in ov:
                         fails.append({"kind": "rfc1123_string_not_parsed", "detail": f"session {k} field {key}: {v!r} stayed {ov}"})
                     else:
@@ -1228,6 +1250,8 @@ def features(case, obs):
         out.append("count:True")
     for k in case.get("omit") or []:
         out.append(f"omitted:{k}")
+    if case.get("unpadded"):
+        out.append("stamp:unpadded-day")
     if "pages" in case and not obs["is_count"] and case["site"] in SITES:
         chain = len(obs["gets"])
         out.append(f"requests:{min(chain, 7)}")
